@@ -9,6 +9,8 @@ NAMES_OTHER = ["notes.txt", "x"]
 def gen_template(rng, toks, length, profile="mixed", kind_hint=None):
     """Weighted random walk.  profile: mixed | uid | sync | reupload | cond"""
     names = list(NAMES_ICS[: rng.randint(2, 4)])
+    if profile == "uid":
+        names = list(NAMES_ICS[: rng.randint(3, 4)])
     if profile in ("mixed", "sync", "cond"):
         names += [rng.choice(NAMES_VCF)]
     if profile == "mixed" and rng.random() < 0.5:
